@@ -282,8 +282,15 @@ func (g *c08G) op() string {
 }
 
 func c08Gen(r *vhRng) string {
-	if r.Chance(1, 2000) {
-		return "0|const"
+	if r.Chance(1, 1000) {
+		switch r.Intn(3) {
+		case 0:
+			return "0|const"
+		case 1:
+			return "ast ExecuteBlock"
+		default:
+			return "ast InitializeBlock"
+		}
 	}
 	g := &c08G{r: r, x: 0x61, y: 0x71}
 	hdr := 0
